@@ -2639,10 +2639,12 @@ static iwrc _jbl_target_apply_patch(struct jbl_node *target, const struct jbl_pa
           cnt--;
           child = child->next;
         }
-        if (cnt > 0) {
+        if (cnt > 0 || idx < 0) {
           return JBL_ERROR_PATCH_INVALID_ARRAY_INDEX;
         }
-        value->klidx = idx;
+        if (op != JBP_SWAP) { // swap keeps both nodes in place (or re-adds `value` below)
+          value->klidx = idx;
+        }
         if (child) {
           if (op == JBP_SWAP) {
             _jbl_copy_node_data(ntmp, value);
